@@ -20,6 +20,7 @@ done
 # translator outputs are committed; refresh them from /repo (each keeps the committed text if it cannot translate)
 python3 lib/xlate_field.py /repo /verif/coq/Gen/GenField.v || true
 python3 lib/xlate_field.py --table2 /repo /verif/coq/Gen/GenField2.v || true
+python3 lib/xlate_field.py --table3 /repo /verif/coq/Gen/GenField3.v || true
 python3 lib/xlate_limb.py /repo /verif/coq/GenLimb/GenLimb.v || true
 python3 lib/xlate_limb.py --derive /repo /verif/coq/GenLimb/GenDerive.v || true
 ( cd coq && timeout 7000 make -j16 -k ) || echo 'setup: some Coq targets failed (each check reports its own)'
